@@ -153,4 +153,12 @@ theorem extendDim_is_reindex {α} (a r : Samples α) (attr start stop : Option R
   · simp at h
 
 
+/-- the leading `k` parameters zipped with `k` positional arguments: the first `k` pairs of the full binding -/
+theorem zip_take_prefix {β} (d t : List String) (vals : List β) (k : Nat) (hk : k ≤ vals.length) (hkd : k ≤ d.length) :
+    (d ++ t).zip (vals.take k) = (d.zip vals).take k := by
+  have h1 : d ++ t = d.take k ++ (d.drop k ++ t) := by rw [← List.append_assoc, List.take_append_drop]
+  have h2 : vals.take k = vals.take k ++ [] := by simp
+  rw [h1, h2, List.zip_append (by simp [List.length_take]; omega)]
+  simp [List.zip, List.take_zipWith]
+
 end SE.Axis
